@@ -153,3 +153,45 @@ def config_fp():
 def _cfg(c):
     return {"validation_enabled": c.validation_enabled, "validation_depth": getattr(c.validation_depth, "name", c.validation_depth),
             "cache_dataframe": c.cache_dataframe, "keep_cached_dataframe": c.keep_cached_dataframe}
+
+
+def _tokens(path):
+    out, cur, depth = [], "", 0
+    for ch in path:
+        if ch == "[":
+            depth += 1
+        elif ch == "]":
+            depth -= 1
+        if ch == "." and depth == 0:
+            if cur:
+                out.append(cur)
+            cur = ""
+        else:
+            cur += ch
+    if cur:
+        out.append(cur)
+    return out
+
+
+_OWNER = {"columns": "Column", "index": "Index", "indexes": "Index", "checks": "Check", "parsers": "Parser"}
+
+
+def classify_path(path):
+    """`.columns[c0].checks[1]._check_fn.<len>` -> `Check._check_fn`; `.columns[tz]._dtype.f.tz` -> `Column.dtype`;
+    `.index._coerce` -> `Index.coerce`.  Names the *kind of object and attribute* that differs, not the instance."""
+    owner = "Schema"
+    for tok in _tokens(path):
+        name = tok.split("[", 1)[0]
+        if name in _OWNER:
+            owner = _OWNER[name]
+            continue
+        if name in ("_dtype", "dtype"):
+            return f"{owner}.dtype"
+        if name in ("<len>", "<keys>"):
+            return f"{owner}s"          # the collection itself (number / keys of columns, checks, ...) differs
+        return f"{owner}.{name.lstrip('_') if name in ('_coerce', '_unique') else name}"
+    return owner
+
+
+def classify(paths):
+    return sorted({classify_path(p) for p in paths})
